@@ -17,19 +17,21 @@ Import ListNotations.
    (valid new key added, present key removed, flag switched; invalid pubkeys,
    duplicate additions and absent removals rejected), and after every operation
    the file reloads to exactly the policy in memory.
-   It is FALSE of the code: Findings/F_C25_1.v, F_C25_2.v, F_C25_3.v refute it with
-   three file shapes (each replayed on the real code, see findings/C25.json). *)
+   It is FALSE of the code: Findings/F_C25_1.v and F_C25_3.v refute it with two file
+   shapes (each replayed on the real code every run, see findings/C25.json). A third
+   shape (F_C25_2.v, unterminated last line) was repaired in the repo (fix: commit cbf4d81);
+   the model follows the repaired addLineToFile and that refutation no longer compiles. *)
 Definition C25_full : Prop :=
   forall f0 p0 ops,
     parse_file f0 = POk p0 -> no_ext ops = true ->
     run_trace (mkSt f0 p0) ops = spec_trace p0 ops /\
     (forall pre post, ops = (pre ++ post)%list -> synced (run (mkSt f0 p0) pre)).
 
-(* What holds: the same statement for every file outside the three refuted
-   shapes. [canonical f0] = the file is empty or newline-terminated, has no
-   [section] header, and every line that sets allowlisted_peers / suspicious_peers
-   is written as the code writes it (key=value, optionally followed by CR);
-   any comments, blank lines, other keys in any spelling, repeated keys, CRLF. *)
+(* What holds: the same statement for every file outside the two remaining refuted
+   shapes. [canonical f0] = the file has no [section] header and every line that
+   sets allowlisted_peers / suspicious_peers is written as the code writes it
+   (key=value, optionally followed by CR); anything else is allowed: comments,
+   blank lines, other keys in any spelling, repeated keys, CRLF, a missing final newline. *)
 Theorem c25_except_known : forall f0 p0 ops,
   canonical f0 = true ->
   parse_file f0 = POk p0 -> no_ext ops = true ->
